@@ -114,8 +114,38 @@ EpAccept(e) ==
 (* hands the result to ep_mul_fix_plain, which reads naf[l - 1] although   *)
 (* the recoding of 0 has length l = 0: for k a non-zero multiple of n the  *)
 (* call returns a point different from the identity (typically -P).        *)
+(*                                                                         *)
+(* C03-addprojc-min3-alias: in the a = -3 branch of the full projective    *)
+(* addition (second operand tagged projective) ep_add_projc writes r->x    *)
+(* before its last read of q->x: with the output aliasing the SECOND       *)
+(* operand (r == q, also r == p == q) the returned point is not P + Q.     *)
+(*                                                                         *)
+(* C03-sim-table-infinity: ep_mul_sim_joint / ep_mul_sim_trick normalise   *)
+(* their tables with ep_norm_sim, whose simultaneous inversion cannot      *)
+(* handle the identity: when a table entry iP + jQ is the identity (joint: *)
+(* Q = P or Q = -P; trick: some 0 <= i, j < 2^(w/2)) the call throws.      *)
+(*                                                                         *)
+(* C03-simtrick-short-scalar: ep_mul_sim_trick recodes k mod n and m mod n *)
+(* with bn_rec_win(w = RLC_WIDTH/2), whose mixed int/size_t arithmetic     *)
+(* wraps for scalars shorter than w bits: a reduced scalar 0 (k a non-zero *)
+(* multiple of n) throws ERR_NO_BUFFER, a reduced scalar of 1..w-1 bits    *)
+(* (k = 1 mod n for w = 2) runs the window loop past the buffer (SIGSEGV). *)
 (***************************************************************************)
 CeilDiv(x, y) == (x + y - 1) \div y
+KRed(e, k) == IModPos(I(k.s = 1, k.d), BNorm(e.n.d))
+TrickFirstShort(e) ==      \* the reduced scalar bn_rec_win fails on first ("none" if neither is short)
+    LET w == e.wd \div 2 IN
+    IF BBits(KRed(e, e.k)) < w THEN KRed(e, e.k)
+    ELSE IF BBits(KRed(e, e.m)) < w THEN KRed(e, e.m) ELSE <<255, 255>>
+SimTableInf(e) ==
+    LET c == Crv(e)
+        P == PAbs(e, e.P)
+        Q == PAbs(e, e.Q)
+        M == Pow2(e.wd \div 2) - 1
+    IN  IF e.op = "ep_mul_sim_joint" THEN PEq(P, Q) \/ PEq(P, PNeg(Q, c))
+        ELSE \E i \in 0..M, j \in 0..M :
+                /\ i * (M + 1) + j >= 2
+                /\ PAdd(PMulNat(BFromNat(i), P, c), PMulNat(BFromNat(j), Q, c), c).inf
 LwregDigits(e) == CeilDiv(BBits(e.n.d), e.wd - 1)
 LwregCap(e) == (e.wd - 1) * (LwregDigits(e) + 1)
 LwregBuf(e) == CeilDiv(LwregDigits(e) * (e.wd - 1), e.dgb)
@@ -123,7 +153,7 @@ LwregBuf(e) == CeilDiv(LwregDigits(e) * (e.wd - 1), e.dgb)
 EpKnownKey(e) ==
     CASE /\ e.op = "ep_mul_lwreg" /\ e.endom = 0
          /\ RepOk(e, e.P, SysOf(e)) /\ OnC(e, e.P)
-         /\ BBits(e.k.d) > LwregCap(e)
+         /\ (BBits(e.k.d) > LwregCap(e) \/ e.k.u > LwregBuf(e))
          /\ IF e.crash # 0 THEN e.k.u > LwregBuf(e)
             ELSE Ok(e) /\ ValidTag(e.R) /\ ~PEq(PAbs(e, e.R), KP(e, e.k, e.P))
             -> "C03-lwreg-long-scalar"
@@ -132,5 +162,24 @@ EpKnownKey(e) ==
          /\ BNorm(e.k.d) # <<>> /\ BMod(BNorm(e.k.d), BNorm(e.n.d)) = <<>>
          /\ Ok(e) /\ ValidTag(e.R) /\ ~PAbs(e, e.R).inf
             -> "C03-fixlwnaf-zero-mod-order"
+      [] /\ e.op \in {"ep_add_projc", "ep_add"} /\ SysOf(e) = 2 /\ e.al \in {2, 4}
+         /\ Crv(e).a = BSub(Crv(e).p, <<3>>) /\ e.Q.c = 2
+         /\ RepOk(e, e.P, 2) /\ RepOk(e, e.Q, 2) /\ OnC(e, e.P) /\ OnC(e, e.Q)
+         /\ ~PAbs(e, e.P).inf /\ ~PAbs(e, e.Q).inf
+         /\ Ok(e) /\ ValidTag(e.R) /\ ~PEq(PAbs(e, e.R), PAdd(PAbs(e, e.P), PAbs(e, e.Q), Crv(e)))
+            -> "C03-addprojc-min3-alias"
+      [] /\ e.op \in {"ep_mul_sim_joint", "ep_mul_sim_trick"}
+         /\ RepOk(e, e.P, SysOf(e)) /\ RepOk(e, e.Q, SysOf(e)) /\ OnC(e, e.P) /\ OnC(e, e.Q)
+         /\ ~PAbs(e, e.P).inf /\ ~PAbs(e, e.Q).inf /\ BNorm(e.k.d) # <<>> /\ BNorm(e.m.d) # <<>>
+         /\ e.crash = 0 /\ e.err # 0 /\ e.code = 1
+         /\ SimTableInf(e)
+            -> "C03-sim-table-infinity"
+      [] /\ e.op = "ep_mul_sim_trick"
+         /\ RepOk(e, e.P, SysOf(e)) /\ RepOk(e, e.Q, SysOf(e)) /\ OnC(e, e.P) /\ OnC(e, e.Q)
+         /\ ~PAbs(e, e.P).inf /\ ~PAbs(e, e.Q).inf /\ BNorm(e.k.d) # <<>> /\ BNorm(e.m.d) # <<>>
+         /\ TrickFirstShort(e) # <<255, 255>>
+         /\ IF TrickFirstShort(e) = <<>> THEN e.crash = 0 /\ e.err # 0 /\ e.code = 1
+            ELSE e.crash # 0
+            -> "C03-simtrick-short-scalar"
       [] OTHER -> ""
 =============================================================================
